@@ -133,8 +133,8 @@ func verifH_SendFC() {
 	if err == nil {
 		verifAssert(off == len(msg), "C01+C13.complete")
 		verifAssert(len(log) >= 1, "C01+C13.envelope-even-when-empty")
-		if len(log) > 2 {
-			verifCover("three-frames")
+		if len(log) > 1 {
+			verifCover("two-frames")
 		}
 		if upd > 0 {
 			verifCover("completed-with-update")
